@@ -361,22 +361,15 @@ class FlatSet : private Compare {
 
   template <class C2, typename std::enable_if<!std::is_same<Compare, C2>::value, bool>::type = true>
   void merge(FlatSet<T, C2, Alloc, VecType> &o) {
-    for (miterator oit = o.mbegin(); oit != o.mend();) {
-      miterator lbIt = std::lower_bound(mbegin(), mend(), *oit, compRef());
-      if (lbIt == mend()) {
-        _sortedVector.push_back(std::move(*oit));
-        oit = o._sortedVector.erase(oit);
-      } else if (compRef()(*oit, *lbIt)) {
-        _sortedVector.insert(lbIt, std::move(*oit));
-        oit = o._sortedVector.erase(oit);
-      } else {
-        // equal
-        ++oit;
-      }
-    }
+    mergeUnordered(o);
   }
 
   void merge(FlatSet &o) {
+    if (!std::is_empty<Compare>::value && !isStrictlySorted(o.begin(), o.end())) {
+      // the compare objects of the two sets are in different states: 'o' is not ordered as this set
+      mergeUnordered(o);
+      return;
+    }
     // Do not use std::inplace_merge to avoid allocating memory if not needed
     miterator first1 = mbegin(), last1 = mend();
     miterator first2 = o.mbegin(), last2 = o.mend();
@@ -453,6 +446,35 @@ class FlatSet : private Compare {
   miterator mfind(const_reference v) {
     miterator lbIt = std::lower_bound(mbegin(), mend(), v, compRef());
     return lbIt == mend() || compRef()(v, *lbIt) ? mend() : lbIt;
+  }
+
+  /// Merge from a set whose elements are not necessarily ordered as the elements of this set
+  template <class C2>
+  void mergeUnordered(FlatSet<T, C2, Alloc, VecType> &o) {
+    for (miterator oit = o.mbegin(); oit != o.mend();) {
+      miterator lbIt = std::lower_bound(mbegin(), mend(), *oit, compRef());
+      if (lbIt == mend()) {
+        _sortedVector.push_back(std::move(*oit));
+        oit = o._sortedVector.erase(oit);
+      } else if (compRef()(*oit, *lbIt)) {
+        _sortedVector.insert(lbIt, std::move(*oit));
+        oit = o._sortedVector.erase(oit);
+      } else {
+        // equal
+        ++oit;
+      }
+    }
+  }
+
+  bool isStrictlySorted(const_iterator first, const_iterator last) const {
+    if (first != last) {
+      for (const_iterator next = first; ++next != last; first = next) {
+        if (!compRef()(*first, *next)) {
+          return false;
+        }
+      }
+    }
+    return true;
   }
 
   template <class V>
